@@ -333,12 +333,21 @@ def rule_sort_order(ctx):
     # the search compares the same key with unsigned < and >
     tu = cfront.load_tu('particle.c')
     fn = tu.func('reb_search_lookup_table')
-    cmps = [render(x) for x in walk(cfront.body(fn)) if x.get('kind') == 'BinaryOperator' and x.get('opcode') in ('<', '>') and 'lookuphash' in render(x)]
-    n += len(cmps)
-    anchor(len(cmps) >= 2, 'bisection in reb_search_lookup_table compares lookuphash with < and >')
+    # the key of the bisection: the local initialised from a `.hash` member of the table
+    keys = []
     for x in walk(cfront.body(fn)):
-        if x.get('kind') == 'VarDecl' and x.get('name') == 'lookuphash' and 'uint32_t' not in qtype(x) and 'unsigned' not in qtype(x):
-            ctx.report('R14.7', 'search:type', 'src/particle.c:%s reb_search_lookup_table' % line_of(x), 'the bisection key is declared %s: the comparator sorts unsigned 32-bit hashes' % qtype(x))
+        if x.get('kind') == 'VarDecl' and 'init' in x:
+            ini = [c_ for c_ in x.get('inner', []) if c_.get('kind') not in ('FullComment',)]
+            if ini and strip(ini[-1], casts=True).get('kind') == 'MemberExpr' and strip(ini[-1], casts=True).get('name') == 'hash':
+                keys.append(x)
+    anchor(len(keys) == 1, 'bisection key (a local read from table[middle].hash) in reb_search_lookup_table')
+    kname = keys[0]['name']
+    cmps = [x for x in walk(cfront.body(fn)) if x.get('kind') == 'BinaryOperator' and x.get('opcode') in ('<', '>')
+            and any(y.get('kind') == 'DeclRefExpr' and y['referencedDecl'].get('name') == kname for y in walk(x))]
+    n += len(cmps)
+    anchor(len(cmps) >= 2, 'bisection in reb_search_lookup_table compares its key with < and >')
+    if 'uint32_t' not in qtype(keys[0]) and 'unsigned' not in qtype(keys[0]):
+        ctx.report('R14.7', 'search:type', 'src/particle.c:%s reb_search_lookup_table' % line_of(keys[0]), 'the bisection key is declared %s: the comparator sorts unsigned 32-bit hashes' % qtype(keys[0]))
     ctx.covered('R14.7', 'qsort/bsearch comparators are overflow-free three-way comparisons; the bisection uses unsigned < and > on the same key', n, floor=3, samples=samples)
 
 
